@@ -2,6 +2,7 @@
 
 from simkit.machines.crash import CrashMachine
 from simkit.machines.edits import EditsMachine
+from simkit.machines.mca import McaMachine
 from simkit.machines.scans import ScansMachine
 from simkit.machines.simtime import SimTimeMachine
 from simkit.machines.steady import SteadyMachine
@@ -12,5 +13,6 @@ REGISTRY = {
     "C09": ScansMachine,
     "C14": SimTimeMachine,
     "C15": SteadyMachine,
+    "C18": McaMachine,
     "C19": CrashMachine,
 }
